@@ -9,6 +9,12 @@ NOTE_COMMON = ("Trusted base of a 'held' verdict: CPython executing the repo sou
                "it is a concrete input that fails on the installed package.")
 
 CLAIMED = {
+    "C06": ("bounded symbolic execution of DropletTrackList.from_emulsion_time_course on time courses of <=3 frames x "
+            "<=2 droplets (thorough: 3 droplets / 4 frames), 1D/2D, with and without periodic grid, both methods; "
+            "positions, radii, times and cut-off symbolic; partition, copy-independence, consecutive-frame and "
+            "input-preservation obligations; exceptions on any feasible path are violations", "§4 C06"),
+    "C07": ("same scenario as C06; overlap / cut-off / greedy-matching / small-motion identity obligations against an "
+            "independent min-image oracle, decided by z3 for all positions, radii and cut-offs", "§4 C07"),
     "C10": ("bounded symbolic execution of remove_overlapping / get_pairwise_distances / overlaps / "
             "get_neighbor_distances / from_random on n<=3 (thorough 4) droplets, dims 1-3, with and without periodic "
             "grids; positions, radii, minimal distance and rng draws symbolic; independent min-image oracle", "§4 C10"),
